@@ -281,7 +281,7 @@ class Exec(ExprMixin, SpecMixin, Engine):
             return [(s, NONE)]
         hv = (self.cur.ghost.get("havoc_calls") or {}) if self.cur is not None else {}
         if name in hv and self.inline_depth == 0:
-            return self.havoc_call(s, obj, name, hv[name])
+            return self.havoc_call(s, obj, name, hv[name], args)
         if obj.x is not None:
             classes = [obj.x]
         else:
@@ -307,15 +307,22 @@ class Exec(ExprMixin, SpecMixin, Engine):
             raise Unsupported("no feasible receiver class for " + name)
         return res
 
-    def havoc_call(self, s, obj, name, spec):
+    def havoc_call(self, s, obj, name, spec, args=()):
         """Typestate view of a call (DESIGN 4.3 T-RC / P:RC): the callee may
         change any heap cell and raise anything; only the ghost read-current
         log is tracked: it never shrinks, and stays equal when the callee is
         declared rc-neutral (a claim its own contract proves)."""
         for cl_name, txt in (self.cur.ghost.get("at_call", {}).get(name, {})).items():
             ctx = SpecCtx(self.entry_stack[-1], s)
-            self.oblige(s, "%s:at-call[%s]:%s" % (self.cur.name, name, cl_name),
-                        self.spec(txt, ctx, env=dict(self.entry_stack[-1].env), state=s))
+            env = dict(self.entry_stack[-1].env)
+            for i, a in enumerate(args):
+                env["arg%d" % i] = a
+            bad = [a for a in args if a.kind not in ("K", "V", "int", "bool", "ref", "none", "marker", "any")]
+            try:
+                goal = self.spec(txt, ctx, env=env, state=s)
+            except Unsupported:
+                goal = z3.BoolVal(False)      # e.g. an unconverted argument of the wrong kind
+            self.oblige(s, "%s:at-call[%s]:%s" % (self.cur.name, name, cl_name), goal)
         res = []
         for ret in spec["returns"]:
             s2 = s.copy()
